@@ -19,7 +19,7 @@ func init() {
 		Level:     "exploration",
 		Technique: "bounded exhaustive input enumeration (all byte strings over an 8-atom alphabet in every field position; all small table shapes) rendered by the real code and parsed back by an independent strict RFC 4180 state machine",
 		Rule: "family field-bytes: every string of <=3 (thorough <=4) atoms over {a, quote, comma, CR, LF, NUL, e-acute, invalid byte 0xff} in each of 7 field positions (only/first/last, header/body, padded short row), thorough also all pairs of two fields varying together (<=2 atoms each); " +
-			"family render-after-failed-render: a long-lived wrapper whose RenderTo failed at any write index/mode, then rendered again; family shapes: every shape with header none/0..3 cells (added first or last), <=2 rows (thorough <=3) each a separator or 0..3 cells, every cell text drawn from {serial, empty, quote-comma-newline}; " +
+			"family lifecycle: one table and one long-lived wrapper, every sequence of <=4 (thorough 5) operations over in-place modifications (items mutated to same-width/wider/narrower/multi-line/hostile text + Update, headers replaced incl. width swap and duplicates, rows grown, cell added to an attached row), Render and failed RenderTo, each Render judged against the current content; family render-after-failed-render: a long-lived wrapper whose RenderTo failed at any write index/mode, then rendered again; family shapes: every shape with header none/0..3 cells (added first or last), <=2 rows (thorough <=3) each a separator or 0..3 cells, every cell text drawn from {serial, empty, quote-comma-newline}; " +
 			"non-trivial = the varied text needs quoting/escaping or the shape is ragged/has zero-cell rows/separators/no header; distinct by (position,text) or (shape,texts)",
 		Assumptions: []string{"record terminator LF or CRLF both accepted by the parser (the code emits LF)", "field separator is the default comma"},
 		QuickBudget: 90 * time.Second, ThoroughBudget: 15 * time.Minute,
@@ -210,6 +210,12 @@ func c05AfterFailure(x *X) {
 
 func runC05(x *X) {
 	c05AfterFailure(x)
+	ldepth := x.Pick(4, 5)
+	lops := lifeOps(false, false)
+	x.Explore("lifecycle", ExploreOpts{ShardDepth: 2, Bound: fmt.Sprintf("one table + one long-lived csv wrapper: all sequences of <=%d operations over %d in-place modifications, Render, failed RenderTo", ldepth, len(lops))}, func(c *Chooser) {
+		lifecycle(x, c, "C05", ldepth, lops, false, func(t tabular.Table) lifeRenderer { return csv.Wrap(t) },
+			func(m *lifeModel, tags []string, out string, err error) { c05Judge(x, m.grid(), tags, out, err) })
+	})
 	wide := WideGrids()
 	x.Explore("wide", ExploreOpts{Bound: "4 tables of 10-13 columns (ragged, zero-cell row, separator, header added last, no header) x one hostile text in each column position in turn"}, func(c *Chooser) {
 		g0 := wide[c.Choose(len(wide))]
